@@ -1087,6 +1087,9 @@ func GenEval(r *Rng, p *Profile) *EvalCase {
 		if r.P(0.3) {
 			return 4
 		}
+		if r.P(0.12) {
+			return 3 // rebuilt with ldbuilders from the decoded parts
+		}
 		return 1
 	}
 	nsegs := r.Range(p.MinSegs, p.MaxSegs)
